@@ -492,6 +492,17 @@ static void kernel_line(char *line)
       c05_quant(s, o, dt, ws); for (i = 0; i < nx; i++) printf(" %d", o[i]);
     }
     putchar('\n');
+  } else if (!strcmp(cmd, "fdctfst")) {
+    /* 64 level-shifted samples */
+    int ok, s; short *d = (short *)B[0]; static short in[64];
+    for (i = 0; i < 64; i++) in[i] = (short)nextnum(&p, &ok);
+    for (s = 1; s >= 0; s--) {
+      memcpy(d, in, 128);
+      printf(s ? "S" : " | C");
+      if (s) jsimd_fdct_ifast(d); else jpeg_fdct_ifast(d);
+      for (i = 0; i < 64; i++) printf(" %d", d[i]);
+    }
+    putchar('\n');
   } else puts("?");
 }
 
